@@ -322,7 +322,7 @@ def coerce(v: V, t) -> V:
         return V(t, (z3.BoolVal(False), coerce(v, t[1])))
     if k in ("bag", "set") and v.t[0] in ("bag", "set") and _compatible(v.t[1], t[1]):
         return V(t, v.x)
-    if k in ("bag", "set") and v.t[0] == "list":
+    if k in ("bag", "set") and v.t[0] in ("list", "tuple"):   # a concrete tuple (e.g. the empty tuple ()) viewed as the collection of its elements
         arr = z3.K(sort_of(t[1]), z3.BoolVal(False))
         for e in v.x:
             arr = z3.Store(arr, to_term(coerce(e, t[1])), z3.BoolVal(True))
@@ -349,7 +349,14 @@ def coerce(v: V, t) -> V:
         return V(t, v.x)  # defaultdict viewed as a mapping (and back)
     if _compatible(v.t, t):
         return V(t, v.x)
+    for hook in COERCE_HOOKS:
+        r = hook(v, t)
+        if r is not None:
+            return r
     raise TypeError(f"cannot view {v.t} as {t}")
+
+
+COERCE_HOOKS = []   # contract files may register abstraction functions (v, t) -> V | None, e.g. a concrete graph record viewed as the abstract Graph
 
 
 def _compatible(a, b):
